@@ -110,6 +110,18 @@ def expand(job):
                 yield {"mode": sp, "rec": {"fmt": rnd.choice([3, 4, 4]), "n": n, "a": tp_rec(rep, yy, a_, b_, sod=rnd.choice([0, 0, 21600]),
                                                                                              zh=rnd.choice([0, 1]), zm=0), "d": {"d": iv}}}
                 continue
+        if rnd.random() < 0.03:
+            from harness import refcal as R
+            from harness.common import tp_rec
+            y0 = rnd.choice([0, 0, -1, 1, -4])
+            n0 = R.year_start(m, y0 + 1) - rnd.choice([1, 1, 2, 30, 366])
+            rep = rnd.choice(["cal", "ord", "week"])
+            pts = []
+            for dn in (n0, n0 + rnd.choice([1, 2, 31, 367, 800])):
+                yy, a_, b_ = R.date_of(m, rep, dn)
+                pts.append(tp_rec(rep, yy, a_, b_, sod=rnd.choice([0, 21600]), zh=0, zm=0, xd=2))
+            yield {"mode": sp, "rec": {"fmt": 1, "n": rnd.choice([2, 3, 4, 0]), "a": pts[0], "s": pts[1]}}
+            continue
         if rnd.random() < 0.12:
             a = gen.rand_point(rnd, m, wide=False, whole=True, allow24=False, zones=[(0, 0), (1, 0), (-3, -30)])
             a = dict(a, prec="hms", mi=max(a["mi"], 0), ss=max(a["ss"], 0))
